@@ -12,8 +12,8 @@ from harness.pool import Pool
 
 def run(ctx) -> None:
     mh = 2 if ctx.quick else 3
-    ctx.rule = (f"histories = every sequence of <= {mh} of 16 sources (valid, macros, symbols, table, two custom .map layouts, "
-                "HiROM, incbin, include_ips, .include (good and failing inside the included file), failures in scan/parse/expansion/label pass/emission) followed by each of 9 probes "
+    ctx.rule = (f"histories = every sequence of <= {mh} of 19 sources (valid, macros, symbols, two tables under one path, file API from two directories, two custom .map layouts, "
+                "HiROM, incbin, include_ips, .include (good and failing inside the included file), failures in scan/parse/expansion/label pass/emission) followed by each of 13 probes "
                 "run twice; non-trivial = distinct (history, probe)")
     ctx.trusted = ["TLC 1.8", "spec/Session.tla", "global projection in harness/drivers.py (every non-callable module-level "
                    "value and class attribute of a816.*/script.*)"]
@@ -29,13 +29,16 @@ def run(ctx) -> None:
         raise tlc.TLCFailure("MC_C19 produced too few histories")
     pool = Pool(modname="harness.drivers")
     sources = sorted({s for h in hists for s in h} | set(probes))
-    fresh_out = pool.map("session_history", [{"ids": [s]} for s in sources], timeout=90, batch=1)
+    # the reference result of every source: a really fresh interpreter with its own string-hash seed
+    fresh_out = pool.map("session_history", [{"ids": [s], "hashseed": 101 + ctx.seed} for s in sources], timeout=120, batch=1)
     fresh = {}
     for s, o in zip(sources, fresh_out):
         if "steps" not in o:
             raise tlc.TLCFailure(f"fresh run of {s} failed: {o}")
         fresh[s] = o["steps"][0]["res"]
     tasks = [{"ids": h + [p, p]} for h in hists for p in probes]
+    # every source once more, alone, in another fresh interpreter with another hash seed (repeatability across processes)
+    tasks += [{"ids": [s], "hashseed": 7001 + 13 * ctx.seed + j} for j, s in enumerate(sources)]
     outs = pool.map("session_history", tasks, timeout=120, batch=4)
     recs = []
     for k, (t, o) in enumerate(zip(tasks, outs)):
